@@ -334,7 +334,7 @@ def gen_param_sets(ctx, tiny):
     return sets
 
 
-def gen_reads(ctx, isoforms, params, scale, n):
+def gen_reads(ctx, isoforms, params, scale, n, big=False):
     rng = ctx.rng
     reads = []
     lo = min(t["exons"][0][0] for t in isoforms)
@@ -342,7 +342,11 @@ def gen_reads(ctx, isoforms, params, scale, n):
     for _ in range(n):
         t = rng.choice(isoforms)
         r = rng.random()
-        if r < 0.45:
+        if big and r < 0.5:
+            # a read starting / ending inside an annotated intron of a cluster with >= 128 annotated introns
+            kind = "intron_start"
+            b = A.intron_start_read(rng, t["exons"])
+        elif r < 0.45:
             kind = "follow"
             b = A.follow_read(rng, t["exons"], params.delta, end_slack=rng.choice([0, 0, 2, int(80 * scale)]))
         elif r < 0.52:
@@ -462,12 +466,17 @@ def profiles_json(prof):
             "introns": vlib.canon(prof.read_intron_profile.read_features)}
 
 
-def run_world(ctx, tiny, n_reads, records):
-    """generate one annotation, all parameter sets, reads; append (op, kwargs, impl_output, extra) to records"""
-    isoforms, scale = gen_world(ctx, tiny)
+def run_world(ctx, tiny, n_reads, records, big=False):
+    """generate one annotation, all parameter sets, reads; append (op, kwargs, impl_output, extra) to records.
+    big: a gene cluster with >= 128 annotated introns (gen/c01_annot.big_annotation), two parameter sets"""
+    isoforms, scale = (A.big_annotation(ctx.rng), 1.0) if big else gen_world(ctx, tiny)
     ij = isoforms_json(isoforms)
     first = True
-    for pname, params in gen_param_sets(ctx, tiny):
+    psets = list(gen_param_sets(ctx, tiny))
+    if big:
+        psets = psets[:2]
+        ctx.count("world:big_gene_cluster")
+    for pname, params in psets:
         try:
             built = Built(isoforms, params)
         except ERRS as ex:
@@ -478,7 +487,7 @@ def run_world(ctx, tiny, n_reads, records):
         if first:
             records.append(("gene", {"isoforms": ij}, gene_json(built), None))
             first = False
-        for kind, blocks, polya in gen_reads(ctx, isoforms, params, scale, n_reads):
+        for kind, blocks, polya in gen_reads(ctx, isoforms, params, scale, n_reads, big):
             ctx.count("read:" + kind)
             ctx.count("params:" + pname)
             base = {"isoforms": ij, "params": pj, "blocks": blocks, "polya": polya}
@@ -627,6 +636,9 @@ def correspondence(ctx):
         run_world(ctx, False, 9 if quick else 12, records)
     for _ in range(n_worlds[1]):
         run_world(ctx, True, 10 if quick else 14, records)
+    # gene clusters with >= 128 annotated introns (the model has no size threshold: a threshold in the code shows up here)
+    for _ in range(2 if quick else 20):
+        run_world(ctx, False, 6, records, big=True)
     lines = [vlib.req("C01." + op, **kw) for op, kw, _, _ in records]
     outs = ctx.driver.run(lines)
     for ri, ((op, kw, io, extra), mo) in enumerate(zip(records, outs)):
